@@ -116,3 +116,22 @@ NOT_APPLICABLE = {
     'C11': 'interleavings of processes over a file system and git ref locks; neither Kani nor the MIR executor models OS-level concurrency (DESIGN.md §7)',
     'C13': 'equivalence of two drivers of one state machine under sequences of real git operations; no input can be made symbolic without modelling git\'s rebase/cherry-pick/stash sequencing (DESIGN.md §7)',
 }
+
+# kernels added while strengthening against seeded changes (appended to the level notes)
+_MORE = {
+    'C01': ' Hunk headers without counts, `\\ No newline` markers, octal-escaped and quoted names are part of the grammar; the blank-line / dominant-author projection to lines is decided under C16.',
+    'C02': ' Also decided: one step of the rebase / cherry-pick content replay (transform_changed_files_to_final_state with the real tracker, files of pairwise distinct lines: surviving AI lines keep their session, nothing else becomes AI); the cat-file --batch reader (every present blob back byte for byte); which tree entries have content (is_blob_mode); and the per-commit changed-file reader of the rebase replay over a model object store (changed files = tracked paths whose tree entry differs; content = the blob the tree names, also for a blob shared by two paths or two commits).',
+    'C03': ' Also decided: the fold of the working log (from_just_working_log: a person\'s rewrite clears earlier AI claims), reset --hard discarding pending claims, and the checkpoint path filter (C20) keeping a person\'s files out of an agent\'s checkpoint.',
+    'C04': ' Also decided: prompts of every pending session are carried (INITIAL / note), the files the post-commit step re-examines include every INITIAL file and AI checkpoint entry, and the files `commit --amend` re-loads include every file with a pending AI line in an entry of any checkpoint kind (native replay through a real amend).',
+    'C05': ' Also decided: notes_add_batch against a model of git fast-import (one note per commit, last entry wins, other notes untouched), and the per-commit loop of the slow rebase path with git as environment: every note written names its own commit, has a record for every session it attests, lists only files of that commit and exactly the surviving lines (native replay on plumbing-built histories).',
+    'C06': ' Also decided: the child gets its own process group iff stdin is not a terminal (terminal facts are environment values for every descriptor), terminating signals are forwarded to it, and the exit status / signal is the child\'s (native replay under a pty with a stand-in git).',
+    'C07': ' Also decided: the journal step under every corruption and single fault returns or panics (absorbed) and never exits, and it terminates (leftover lock file); a failing pre-commit step lets git run or exits non-zero after a diagnostic.',
+    'C08': ' Also decided: the real upload enqueue with the database as environment (per-prompt failure), and the storage policy (exclusion wins; include lists; fallback) with glob matching as an arbitrary consistent predicate decided up front.',
+    'C09': ' Also decided: the porcelain reader (every final line keeps commit, original number and the originating path git printed, C-quoted names), the split of hunks by the person behind a session, the JSON writer (exactly the sessions\' lines), notes tree fan-out, and four real rename histories through the whole pipeline on every run.',
+    'C12': ' Also decided: the argv that finally reaches git at the patch and numstat call sites carries every neutralising option (incl. --no-renames), and find_repository keeps the commands git-ai runs itself at the repository root for every combination of start directory and user global options (judged by git\'s own -C rule, replayed with real git).',
+    'C14': ' Also decided: the pre-commit early exit is taken only when no AI checkpoint ever recorded a file, and every AI-touched file (also one git reports as untracked) reaches the pre-commit scanner.',
+    'C19': ' Also decided: each tool is credited with exactly the lines of its sessions (a line listed twice counts once, for the last entry).',
+}
+for _k, _t in _MORE.items():
+    if _k in CHECKS and _t not in CHECKS[_k]['text']:
+        CHECKS[_k]['text'] += _t
